@@ -353,14 +353,30 @@ def cmdKey : Cmd S → Key
   | .batchSet [kv] => kv.1
   | _ => 0
 
-/-- the shard whose mailbox a single-key request is pushed into -/
+/-- the shard a command is sent to when it travels as ONE message: defined for every command kind
+    that names a key — it is the home of the command's FIRST key (`get_primary_key` + `hash_key` for
+    everything that goes through `execute`, `hash_key_bytes` for the byte paths; one function since
+    fix 872671c) -/
 def cmdShard (R : Routes) (fixed : Bool) : Cmd S → Nat
   | .single k _ => R.gen fixed k
+  | .two k _ _ => R.gen fixed k
+  | .msetnx (kv :: _) => R.gen fixed kv.1
+  | .del (k :: _) => R.gen fixed k
+  | .mget (k :: _) => R.gen fixed k
+  | .exists (k :: _) => R.gen fixed k
+  | .mset (kv :: _) => R.gen fixed kv.1
   | .fastGet k => R.bytes k
   | .fastSet k _ => R.bytes k
-  | .batchGet [k] => R.bytes k
-  | .batchSet [kv] => R.bytes kv.1
+  | .batchGet (k :: _) => R.bytes k
+  | .batchSet (kv :: _) => R.bytes kv.1
   | _ => 0
+
+/-- commands that travel as one message to one shard -/
+def OneMessage : Cmd S → Bool
+  | .single _ _ | .two _ _ _ | .fastGet _ | .fastSet _ _ => true
+  | .msetnx (_ :: _) => true
+  | .del [_] => true
+  | _ => false
 
 /-- the keyspace a client can observe: the union of the shards (first shard wins on a key that
     is stored twice — which `home_unique` excludes) -/
